@@ -84,6 +84,9 @@ impl Vm {
             }
         }
         match rule {
+            // a rule defined by the grammar shadows a built-in of the same name, as it does in
+            // the generated parsers (the validator does not allow redefining pest's keywords)
+            _ if self.rules.contains_key(rule) => (),
             "ANY" => return state.skip(1),
             "EOI" => return state.rule("EOI", |state| state.end_of_input()),
             "SOI" => return state.start_of_input(),
